@@ -121,6 +121,9 @@ func sequenceGenerator(
 		stop := stops[idx]
 		if !used[idx] && inDegree[stop.ModelStop().Index()] == 0 {
 			used[idx] = true
+			// the direct successor is a property of this stop, not of the
+			// previous candidate of this level
+			directSuccessor = -1
 			outboundArcs := dag.OutboundArcs(stop.ModelStop())
 			if len(outboundArcs) == 1 {
 				arc := outboundArcs[0]
